@@ -95,8 +95,8 @@ Definition prop_C17_export (g : dag) (s : id) (md : amode)
 Fixpoint sreach_le (k : nat) (rel : list (str * str)) (a b : str) : bool :=
   match k with
   | 0 => str_eqb a b
-  | S k' => str_eqb a b
-            || existsb (fun e => str_eqb (fst e) a && sreach_le k' rel (snd e) b) rel
+  | S k' => if str_eqb a b then true
+            else existsb (fun e => if str_eqb (fst e) a then sreach_le k' rel (snd e) b else false) rel
   end.
 (* some listed edge (p, c) closes a cycle: c reaches p *)
 Definition has_cycle (rel : list (str * str)) : bool :=
